@@ -43,6 +43,8 @@ def run_unit(ctx: Ctx, qualname: str) -> None:
     interp.unit_name = qualname.split(":")[1]
     interp.force_inline = {qualname}
     interp.unit_module = mi
+    interp.unit_qual = qualname
+    interp.roots = []
     interp.writes = []
     unit = interp.unit_name
     a = node.args
@@ -76,13 +78,17 @@ def run_unit(ctx: Ctx, qualname: str) -> None:
                 continue
             raise ContractError(f"{qualname}: no type for parameter {p}")
         env[p] = interp.make_symbolic(fc.params[p], p)
+    interp.roots = list(env.values())
     slf = env.get("self") if is_method else None
     if isinstance(slf, SObj) and interp.class_contract(slf) is not None:
         interp.unit_self = slf
     interp.in_init = is_init
     for cl in fc.requires:
-        v = interp.spec_eval(cl, env, None, mi)
-        ctx.assume(interp.as_z3_bool(v), f"requires {cl.name}")
+        interp.assume_clause(cl, env, None, mi, f"requires {cl.name}")
+    if interp.unit_self is not None and not is_init and fc.task:
+        cc0 = interp.class_contract(interp.unit_self)
+        for cl in cc0.task_inv.get(fc.task, []):
+            interp.assume_clause(cl, {"self": interp.unit_self}, None, mi, f"task invariant {cl.name}")
     if ctx.check() != z3.sat:
         ctx.covers[f"{unit}.entry"] = False
         raise PathEnd("precondition unsatisfiable")
@@ -155,10 +161,12 @@ def finish_unit(interp: Interp, fc: FnContract, env, old_env, exceptional: bool)
         for cl in cc.inv:
             v = interp.spec_eval(cl, {"self": us}, None)
             ctx.prove(f"{unit}.exit.{cl.name}", interp.as_z3_bool(v), cl.text, where_exit, note="class invariant at exit", props=tuple(cl.props) or fc.props)
-        if not interp.in_init and cc.rely and getattr(interp, "segment_start", None) is not None:
-            for cl in cc.rely:
-                v = interp.spec_eval(cl, {"self": us}, interp.segment_start)
-                ctx.prove(f"{unit}.guarantee.{cl.name}", interp.as_z3_bool(v), cl.text, where_exit, note="guarantee of the final segment", props=tuple(cl.props) or fc.props)
+        if not interp.in_init and getattr(interp, "segment_start", None) is not None:
+            interp.check_guarantee(where_exit, "exit")
+        if fc.task and not interp.in_init:
+            for cl in cc.task_inv.get(fc.task, []):
+                v = interp.spec_eval(cl, {"self": us}, None)
+                ctx.prove(f"{unit}.exit.{cl.name}", interp.as_z3_bool(v), cl.text, where_exit, note=f"quiescent invariant of task {fc.task} at exit", props=tuple(cl.props) or fc.props)
     n_y = getattr(interp, "n_yields", 0)
     if fc.effect == "atomic":
         ctx.prove(f"{unit}.atomic", z3.BoolVal(n_y == 0), "declared atomic: no suspending await on any path", where_exit, note=f"{n_y} yield point(s) on this path", props=fc.props, assume_after=False)
